@@ -21,6 +21,7 @@ BOUNDS = {
 }
 OUTSIDE = [">3 axes", "metrics with extra (non-axis) dimensions", "spurious interpolation warnings (the statement does not forbid them)", "float rounding"]
 ASSUMPTIONS = ["metrics strictly positive", "data finite"]
+SWEEPS = {"int64": 2}
 POSN = {"X": ("center", "left"), "Y": ("center", "right"), "Z": ("center", "outer")}
 DIM = {("X", "center"): "xc", ("X", "left"): "xg", ("Y", "center"): "yc", ("Y", "right"): "yg", ("Z", "center"): "zc", ("Z", "outer"): "zo"}
 DIMPOS = {v: k for k, v in DIM.items()}
@@ -270,7 +271,8 @@ def case_ops(W, cfg):
             wd = (da * m).transpose(*dims)
             keep = [d for d in dims if d not in sumdims]
             # oracle: plain sum of data*metric over the axes' dims
-            want = np.empty(tuple(ds.sizes[d] for d in keep), dtype=a.dtype)
+            odt = object if W.sym else float  # oracle arrays never inherit an integer dtype of the data
+            want = np.empty(tuple(ds.sizes[d] for d in keep), dtype=odt)
             md = (m * xr.ones_like(da) if False else m.broadcast_like(da).transpose(*dims)).data
             for idx in np.ndindex(*want.shape):
                 sel = dict(zip(keep, idx))
@@ -286,10 +288,10 @@ def case_ops(W, cfg):
             c = W.scalar("c")
             const = xr.DataArray(np.full(a.shape, c, dtype=a.dtype), dims=dims)
             r = grid.average(const, list(sub))
-            W.equal("average-of-constant:" + lab, r.data, np.full(r.shape, c, dtype=a.dtype))
+            W.equal("average-of-constant:" + lab, r.data, np.full(r.shape, c, dtype=odt))
             if k == 1 or N == 2:
                 r = grid.average(da, list(sub))
-                wantavg = np.empty(want.shape, dtype=a.dtype)
+                wantavg = np.empty(want.shape, dtype=odt)
                 for idx in np.ndindex(*want.shape):
                     sel = dict(zip(keep, idx))
                     msel = xr.DataArray(md, dims=dims).isel(sel).data.ravel()
